@@ -6,7 +6,7 @@
 //! independent observables can each be given a private draw, (e) randomizer seed == drawn bytes,
 //! (f) batch verification draws at least once per item.
 
-use std::collections::BTreeMap;
+use std::collections::{BTreeMap, BTreeSet};
 
 use frost_core::keys::repairable;
 use frost_core::keys::{IdentifierList, refresh};
@@ -58,6 +58,82 @@ pub fn run<C: Suite>(ctx: &mut Ctx) {
             }
             ctx.guard(|ctx| item::<C>(ctx, e, n, t));
         }
+    }
+    // far beyond small shapes: every further coefficient costs as many bytes of the source as the previous one, and the
+    // published values that come from distinct draws stay pairwise distinct
+    if ctx.item("large thresholds: draws per coefficient") {
+        ctx.guard(|ctx| large_thresholds::<C>(ctx));
+    }
+}
+
+fn large_thresholds<C: Suite>(ctx: &mut Ctx) {
+    let slow = C::NAME == "ed448";
+    let ts: Vec<u16> = if slow { vec![2, 3, 34, 35] } else { vec![2, 3, 33, 34, 40, 41, 70] };
+    let me = Identifier::<C>::try_from(1u16).unwrap();
+    let mut per: BTreeMap<&str, Vec<(u16, usize)>> = BTreeMap::new();
+    for &t in &ts {
+        // dealer keygen (n = t), DKG part 1, distributed refresh part 1
+        let mut r = ctx.rng("large-dealer");
+        if let Ok((shares, _)) = C::api_generate_with_dealer(t, t, frost_core::keys::IdentifierList::Default, &mut r) {
+            per.entry("generate_with_dealer").or_default().push((t, r.total()));
+            let co = shares.values().next().unwrap().commitment().coefficients().to_vec();
+            let distinct: BTreeSet<Vec<u8>> = co.iter().filter_map(|c| el_bytes::<C>(&c.value())).collect();
+            if distinct.len() != t as usize {
+                ctx.viol("repeated-random-value", "generate_with_dealer/large-threshold", json!({"t": t, "distinct_commitment_entries": distinct.len()}));
+            }
+        }
+        let mut r = ctx.rng("large-dkg");
+        if let Ok((_, pk)) = C::api_dkg_part1(me, t, t, &mut r) {
+            per.entry("dkg_part1").or_default().push((t, r.total()));
+            let distinct: BTreeSet<Vec<u8>> = pk.commitment().coefficients().iter().filter_map(|c| el_bytes::<C>(&c.value())).collect();
+            if distinct.len() != t as usize {
+                ctx.viol("repeated-random-value", "dkg_part1/large-threshold", json!({"t": t, "distinct_commitment_entries": distinct.len()}));
+            }
+        }
+        let mut r = ctx.rng("large-refresh");
+        if let Ok((_, pk)) = C::api_refresh_dkg_part1(me, t, t, &mut r) {
+            per.entry("refresh_dkg_part1").or_default().push((t, r.total()));
+            let distinct: BTreeSet<Vec<u8>> = pk.commitment().coefficients().iter().filter_map(|c| el_bytes::<C>(&c.value())).collect();
+            if distinct.len() != t as usize - 1 {
+                ctx.viol("repeated-random-value", "refresh_dkg_part1/large-threshold", json!({"t": t, "distinct_commitment_entries": distinct.len()}));
+            }
+        }
+        ctx.count("large_threshold_runs");
+    }
+    // repair: one delta per helper
+    let hs: Vec<u16> = if slow { vec![3, 4, 34, 35] } else { vec![3, 4, 33, 34, 40, 41] };
+    let mut kr = ctx.rng("large-repair-keys");
+    if let Ok(g) = dealer_group::<C>(*hs.last().unwrap() + 1, 2, None, None, &mut kr) {
+        let lost = g.ids[g.ids.len() - 1];
+        for &h in &hs {
+            let helpers: Vec<Identifier<C>> = g.ids.iter().take(h as usize).copied().collect();
+            let mut r = ctx.rng("large-repair");
+            if let Ok(deltas) = C::api_repair_part1(&helpers, &g.kps[&helpers[0]], &mut r, lost) {
+                per.entry("repair_share_part1").or_default().push((h, r.total()));
+                let distinct: BTreeSet<Vec<u8>> = deltas.values().map(|d| d.serialize()).collect();
+                if distinct.len() != h as usize {
+                    ctx.viol("repeated-random-value", "repair_share_part1/many-helpers", json!({"helpers": h, "distinct_deltas": distinct.len()}));
+                }
+            }
+        }
+    }
+    for (entry, v) in per {
+        // bytes(k) = a + b*k: the slope between the two smallest sizes must hold for every other pair
+        if v.len() < 3 {
+            continue;
+        }
+        let (k0, b0) = v[0];
+        let (k1, b1) = v[1];
+        let slope = (b1 as i64 - b0 as i64) / (k1 as i64 - k0 as i64);
+        for &(k, b) in &v[2..] {
+            let want = b0 as i64 + slope * (k as i64 - k0 as i64);
+            if b as i64 != want {
+                ctx.viol("random-bytes-per-coefficient", entry, json!({"sizes_and_bytes": v, "expected_at": k, "expected_bytes": want, "got": b}));
+                break;
+            }
+        }
+        ctx.count("draws_per_coefficient_checks");
+        ctx.class(format!("large/{entry}"));
     }
 }
 
